@@ -28,6 +28,8 @@ func mkR(op string, a, b *RExpr, name string) *RExpr {
 		bi = b.id
 	}
 	k := fmt.Sprintf("%s|%d|%d|%s", op, ai, bi, name)
+	exprMu.Lock()
+	defer exprMu.Unlock()
 	if e, ok := rTab[k]; ok {
 		return e
 	}
